@@ -930,6 +930,10 @@ def _validate_wsgi_start(req, status, headers):
 # asyncio server behind ASGI
 # ===========================================================================
 
+class ClientDisconnected(OSError):
+    """What an ASGI server raises from send() once the client has gone."""
+
+
 class AsyncServerWorld(ServerWorld):
     impl = 'asyncio'
 
@@ -1147,6 +1151,11 @@ class AsyncServerWorld(ServerWorld):
                 return
             if conn.server_seen_close:
                 self.late_sends += 1
+                if t == 'websocket.send' and self.app_opts.get(
+                        'asgi_send_after_close', 'raise') == 'raise':
+                    # uvicorn >= 0.28 / hypercorn: sending after the peer
+                    # has gone raises (older uvicorn dropped silently)
+                    raise ClientDisconnected()
                 return
             if t == 'websocket.accept':
                 if conn.accepted:
